@@ -93,6 +93,7 @@ type Options struct {
 	Random     bool // random gaps; false = minimal gaps, explicit semicolons
 	Comments   bool // allow // comments in gaps
 	CRLF       bool // allow \r\n
+	CR         bool // every line break between tokens is a lone \r (classic Mac OS line ends; a LineTerminator of ECMAScript)
 	ASI        bool // allow line-break / omitted terminators
 	NoNewlines bool // never put a line break inside a gap (C13 smart-mode inputs control them explicitly)
 	SmartASI   bool // line-break-only separators also before statements that begin with `(` or `[` (smart-semicolon inputs)
@@ -694,6 +695,9 @@ func Render(ch Chooser, toks []*Tok, opt Options) string {
 			// a file with Windows line ends: every line break of every gap, also the
 			// one that ends a comment
 			gap = strings.ReplaceAll(strings.ReplaceAll(gap, "\r\n", "\n"), "\n", "\r\n")
+		}
+		if opt.CR && strings.Contains(gap, "\n") {
+			gap = strings.ReplaceAll(strings.ReplaceAll(gap, "\r\n", "\n"), "\n", "\r")
 		}
 		t.Gap = gap
 		write(gap)
